@@ -183,10 +183,21 @@ func TestRace(t *testing.T) {
 			}(g)
 		}
 		go func() { wg.Wait(); close(done) }()
-		select {
-		case <-done:
-		case <-time.After(10 * time.Minute):
-			fmt.Printf("RACE-HARNESS DEADLOCK mode=%s: goroutines did not finish\n", mode)
+		// watchdog: no operation started for 30 s while goroutines are still running = deadlock
+		last, idle := atomic.LoadInt64(&ops), 0
+	wait:
+		for {
+			select {
+			case <-done:
+				break wait
+			case <-time.After(3 * time.Second):
+				if cur := atomic.LoadInt64(&ops); cur != last {
+					last, idle = cur, 0
+				} else if idle++; idle >= 10 {
+					fmt.Printf("RACE-HARNESS DEADLOCK mode=%s: no operation started for 30 s, goroutines did not finish\n", mode)
+					break wait
+				}
+			}
 		}
 	}
 	fmt.Printf("RACE-HARNESS ops=%d goroutines=%d modes=%s phase=%s\n", ops, G, strings.Join([]string{"default", "full"}, ","), phase)
